@@ -86,8 +86,13 @@ def check_cases(cases: list[dict], rep: Report, known: dict) -> None:
         if not occurs and nc.impl[0] == "ok" and nc.impl[1] != 0:
             rep.violation(f"partial with respect to an absent variable is {nc.impl[1]!r}, not 0", info)
         if nc.exact == "exact-miss":
+            from fractions import Fraction as _Fr
+            f0 = wire.MNum(info["model_F0"].split(" ")[1])
+            q = wire.MNum(info["model_Q"].split(" ")[1]).q
             if common.tree_has(e, common.libm_site):
                 rep.count("exactness", "inexact-libm")
+            elif _Fr(f0.v) != q:
+                rep.skip("exactness-premise-undecided")
             else:
                 rep.violation(f"polynomial fragment on dyadic inputs: result {nc.impl[1]!r} is not the exact derivative ({info['model_Q']})", info)
         elif nc.exact == "exact-ok":
